@@ -1,6 +1,7 @@
 """C11 - a block never handles two events at the same time."""
 from __future__ import annotations
 
+import asyncio
 import itertools
 import random
 
@@ -52,7 +53,8 @@ def _rand_seq(rnd, n, ln):
     seq = []
     for _ in range(ln):
         bad = rnd.choice(['none'] * 8 + ['unknown', 'type'])
-        seq.append({'b': rnd.randint(1, n), 'v': rnd.randint(0, 1), 'bad': bad})
+        seq.append({'b': rnd.randint(1, n), 'v': rnd.randint(0, 1), 'bad': bad,
+                    'via': rnd.choice(['ext', 'ext', 'timer'])})      # (timer: FSM blocks only)
     return seq
 
 
@@ -170,6 +172,7 @@ def execute(stim):
 
     class Tgl(edzed.FSM):
         STATES = ['s0', 's1']
+        TIMERS = {'s0': (edzed.INF_TIME, 'tgl'), 's1': (edzed.INF_TIME, 'tgl')}
         EVENTS = [('tgl', ['s0'], 's1'), ('tgl', ['s1'], 's0')]
 
         def calc_output(self):
@@ -271,8 +274,16 @@ def execute(stim):
                 else:
                     bad = 'none'
             try:
-                edzed.ExtEvent(blocks[b], et).send(**kw)
-                exc = 'none'
+                if ev.get('via') == 'timer' and impl == 'fsm' and bad == 'none':
+                    # the event is delivered by the FSM's own timer: nobody is there to catch
+                    # what event() raises, the loop only logs it
+                    blocks[b]._set_timer(0.25, 'tgl')
+                    await asyncio.sleep(0.5)
+                    v = 0
+                    exc = 'circuit' if circuit.error is not None else 'none'
+                else:
+                    edzed.ExtEvent(blocks[b], et).send(**kw)
+                    exc = 'none'
             except edzed.EdzedCircuitError:
                 exc = 'circuit'
             except edzed.EdzedUnknownEvent:
